@@ -61,6 +61,17 @@ Adopt(pre, e) ==
 
 Prop(c) == SubSeq(c, 1, 3)
 
+\* a short structural classification of a violation, used in finding signatures
+ProjOfListed(pre, kind, nm) ==
+  CASE kind = "topic" -> {pre.topics[t].proj : t \in {x \in DOMAIN pre.topics : pre.topics[x].name = nm}}
+    [] kind = "sub" -> {pre.subs[t].proj : t \in {x \in DOMAIN pre.subs : pre.subs[x].name = nm}}
+    [] kind = "snap" -> IF nm \in DOMAIN pre.snaps THEN {pre.snaps[nm].proj} ELSE {}
+Detail(pre, e, c) ==
+  CASE e.op = "List" /\ c = "C12:list-extra" ->
+         ToJson(<<e.kind, e.proj, UNION {ProjOfListed(pre, e.kind, e.names[i]) : i \in DOMAIN e.names} \ {e.proj}>>)
+    [] e.op \in {"List", "Get"} -> e.kind
+    [] OTHER -> ""
+
 TraceInit == l = 1 /\ S = Empty /\ bad = {}
 
 TraceNext ==
@@ -74,7 +85,7 @@ TraceNext ==
               vs == V(S, e, S2) \cup Inv(S2)
           IN /\ S' = S2
              /\ bad' = bad \cup {Prop(c) : c \in vs}
-             /\ \A c \in vs : PrintT(ToJson(<<"VIOL", e.tr, e.i, e.op, c, bad>>))
+             /\ \A c \in vs : PrintT(ToJson(<<"VIOL", e.tr, e.i, e.op, c, bad, Detail(S, e, c)>>))
 
 TraceSpec == TraceInit /\ [][TraceNext]_tvars
 
